@@ -265,13 +265,67 @@ theorem skipStatus_iff (st : Int) :
   · rintro (((h | h) | h) | h) <;> simp [h]
   · rintro (h | h | h | h) <;> simp [h]
 
+/-! ### the header loop runs in sorted order -/
+
+theorem insertHdr_sorted (x : Hdr) (l : List Hdr) (h : l.Pairwise (fun a b => a.name ≤ b.name)) :
+    (insertHdr x l).Pairwise (fun a b => a.name ≤ b.name) := by
+  induction l with
+  | nil => simp [insertHdr]
+  | cons y ys ih =>
+    rw [List.pairwise_cons] at h
+    unfold insertHdr
+    split
+    · rename_i hxy
+      rw [List.pairwise_cons]
+      refine ⟨?_, List.pairwise_cons.mpr h⟩
+      intro z hz
+      rcases List.mem_cons.mp hz with rfl | hz
+      · exact hxy
+      · exact String.le_trans hxy (h.1 z hz)
+    · rename_i hxy
+      rw [List.pairwise_cons]
+      refine ⟨?_, ih h.2⟩
+      intro z hz
+      rcases (mem_insertHdr x z ys).mp hz with rfl | hz
+      · rcases String.le_total z.name y.name with h' | h'
+        · exact absurd h' hxy
+        · exact h'
+      · exact h.1 z hz
+
+theorem sortHdrs_sorted (l : List Hdr) : (sortHdrs l).Pairwise (fun a b => a.name ≤ b.name) := by
+  unfold sortHdrs
+  induction l with
+  | nil => simp
+  | cons x xs ih => exact insertHdr_sorted x _ ih
+
+theorem firstErr_some_split (f : Hdr → Option Err) (l : List Hdr) (e : Err) (h : firstErr f l = some e) :
+    ∃ pre x post, l = pre ++ x :: post ∧ (∀ y, y ∈ pre → f y = none) ∧ f x = some e := by
+  induction l with
+  | nil => simp [firstErr] at h
+  | cons y ys ih =>
+    unfold firstErr at h
+    cases hy : f y with
+    | some e' =>
+      simp [hy] at h
+      exact ⟨[], y, ys, rfl, by simp, by rw [hy, h]⟩
+    | none =>
+      simp [hy] at h
+      obtain ⟨pre, x, post, hl, hp, hx⟩ := ih h
+      refine ⟨y :: pre, x, post, by simp [hl], ?_, hx⟩
+      intro z hz
+      rcases List.mem_cons.mp hz with rfl | hz
+      · exact hy
+      · exact hp z hz
+
 /-! ### one header, the body -/
 
 theorem checkHeader_iff (canon : String → String) (w : Bool) (hdrs : List (String × String)) (h : Hdr)
-    (h1 : hdrDecodedNil canon hdrs h = false) :
+    (h1 : hdrDecodedNil canon hdrs h = false) (h2 : hdrArrayNoItems canon hdrs h = false) :
     checkHeader canon w hdrs h = none ↔ HeaderOK canon w hdrs h := by
-  unfold checkHeader HeaderOK hdrDecodedNil at *
-  unfold present at *
+  unfold checkHeader HeaderOK
+  unfold hdrDecodedNil hdrDec at h1
+  unfold hdrArrayNoItems hdrDec at h2
+  unfold present
   cases hl : lookup (canon h.name) hdrs with
   | none =>
     cases hs : h.schema <;> cases hr : h.required <;> simp
@@ -279,21 +333,23 @@ theorem checkHeader_iff (canon : String → String) (w : Bool) (hdrs : List (Str
     cases hs : h.schema with
     | none => simp
     | some s =>
-      simp only [hl, hs, Option.isSome_some, Bool.true_and] at h1
-      cases hd : h.dec with
+      simp only [hl, hs] at h1 h2
+      simp only [Option.some.injEq, forall_eq']
+      cases hd : decodeHeader s raw h.objDec with
       | err => simp [specValue]
+      | panic => simp [hd] at h2
       | nil => simp [hd] at h1
       | val v =>
         have e2 := visit_asrep_eq_satRepB w v s
         have e3 := satRepB_iff w v s
-        simp only [Option.isSome_some, if_true, specValue, Option.some.injEq, forall_eq', exists_eq_left']
+        simp only [specValue, Option.some.injEq, exists_eq_left']
         rw [e2]
         cases hb : satRepB w v s
         · simp [← e3, hb]
         · simp [← e3, hb]
 
-theorem checkBody_iff (o : Opts) (i : Input) (r : Resp) (he : o.excludeBody = false) :
-    (checkBody o i r).err = none ↔ BodyOK o i r := by
+theorem checkBody_iff (reg : List (String × String)) (o : Opts) (i : Input) (r : Resp) (he : o.excludeBody = false) :
+    (checkBody reg o i r).err = none ↔ BodyOK reg o i r := by
   unfold checkBody BodyOK
   simp only [he, Bool.false_eq_true, if_false]
   cases hc : r.content with
@@ -313,9 +369,10 @@ theorem checkBody_iff (o : Opts) (i : Input) (r : Resp) (he : o.excludeBody = fa
         | true => simp
         | false =>
           simp only [Bool.false_eq_true, if_false, true_and]
-          cases hd : i.bodyDec with
+          cases hd : decodeBody reg i with
           | err => simp
           | nil => simp
+          | panic => simp
           | val v =>
             have e2 := visit_asrep_eq_satRepB o.woOff v s
             have e3 := satRepB_iff o.woOff v s
@@ -336,11 +393,12 @@ theorem headerOKB_iff (canon : String → String) (w : Bool) (hdrs : List (Strin
     | none => simp
     | some s =>
       simp only [Option.some.injEq, forall_eq']
-      cases hv : specValue h.dec raw with
+      cases hv : specValue (decodeHeader s raw h.objDec) raw with
       | none => simp
       | some v => simp [satRepB_iff]
 
-theorem bodyOKB_iff (o : Opts) (i : Input) (r : Resp) : bodyOKB o i r = true ↔ BodyOK o i r := by
+theorem bodyOKB_iff (reg : List (String × String)) (o : Opts) (i : Input) (r : Resp) :
+    bodyOKB reg o i r = true ↔ BodyOK reg o i r := by
   unfold bodyOKB BodyOK
   simp only [Bool.or_eq_true, List.isEmpty_iff]
   apply or_congr Iff.rfl
@@ -354,18 +412,19 @@ theorem bodyOKB_iff (o : Opts) (i : Input) (r : Resp) : bodyOKB o i r = true ↔
       cases hr : i.readFails with
       | true => simp
       | false =>
-        cases hd : i.bodyDec with
+        cases hd : decodeBody reg i with
         | err => simp
         | nil => simp
+        | panic => simp
         | val v => simp [satRepB_iff]
 
-theorem validateResponse_selected (canon : String → String) (o : Opts) (i : Input) (r : Resp)
+theorem validateResponse_selected (canon : String → String) (reg : List (String × String)) (o : Opts) (i : Input) (r : Resp)
     (hm : i.method ≠ "HEAD") (hs : skipStatus i.status = false) (he : i.responses.isEmpty = false)
     (hsel : selected i.responses i.status = some r) :
-    validateResponse canon o i =
+    validateResponse canon reg o i =
       match firstErr (checkHeader canon o.woOff i.hdrs) (checkedHeaders r) with
       | some e => ⟨some e, some i.body⟩
-      | none => checkBody o i r := by
+      | none => checkBody reg o i r := by
   unfold validateResponse
   rw [firstSome_statusKeys, hsel]
   simp only [hm, hs, he, if_false, Bool.false_eq_true]
